@@ -160,9 +160,10 @@ func scenC13(r *Run) {
 					}
 					if !errors.Is(o.err, core.ErrRequestEntityTooLarge) && (o.err == nil || o.err.Error() != core.ErrRequestEntityTooLarge.Error()) {
 						how := ""
-						if o.err != nil && strings.Contains(o.err.Error(), "write") && strings.Contains(o.err.Error(), "closed") {
+						if o.err != nil && kind == "socket" && (strings.Contains(o.err.Error(), "write") && strings.Contains(o.err.Error(), "closed") || o.err.Error() == "EOF") {
 							// the server refused on the header and closed; the client's write of the body failed before
-							// its receive loop read the refusal
+							// its receive loop read the refusal (the caller sees that write error, or the EOF of the
+							// receive loop that the teardown ended - whichever is reported first)
 							how = ":body-write-failed-on-closed-connection"
 						}
 						r.Fail("C13:no-too-large-error:"+kind+":truthful"+how, "limit %d, body %d: the caller got (%d bytes, %v) instead of the request-too-large error", L, size, len(o.resp), o.err)
